@@ -154,6 +154,14 @@ func init() {
 		fr.i.runQueued()
 		return nil
 	}
+	rt["ScheduleND"] = func(fr *frame, args []value) value {
+		fr.i.ex.schedND = args[0].(bool)
+		return nil
+	}
+	rt["Yield"] = func(fr *frame, args []value) value {
+		fr.i.switchFrom(fr.i.cur, false)
+		return nil
+	}
 	rt["MapOrderND"] = func(fr *frame, args []value) value {
 		fr.i.ex.mapOrderND = args[0].(bool)
 		return nil
@@ -311,4 +319,115 @@ func (i *interpreter) readerContent(fr *frame, rd iface) (symStr, bool) {
 		}
 	}
 	return symStr{}, false
+}
+
+// ---- tidwall/resp Conn / Writer model ----
+
+func init() {
+	intrinsics["github.com/tidwall/resp.NewConn"] = func(fr *frame, args []value) value {
+		// &Conn{Reader *Reader, Writer *Writer, base net.Conn, RemoteAddr string}
+		var w value = &opaque{kind: "respwriter", data: args[0]}
+		var c value = structure{(*value)(nil), &w, args[0], ""}
+		return &c
+	}
+	intrinsics["github.com/tidwall/resp.NewWriter"] = func(fr *frame, args []value) value {
+		var w value = &opaque{kind: "respwriter", data: args[0]}
+		return &w
+	}
+	writeTo := func(fr *frame, w value, r symStr) value {
+		op := (*(w.(*value))).(*opaque)
+		dst := op.data.(iface)
+		if dst.t == nil {
+			return fr.i.newError(fr, "write to nil connection")
+		}
+		// call dst.Write([]byte)
+		ms := fr.i.prog.MethodSets.MethodSet(dst.t)
+		for k := 0; k < ms.Len(); k++ {
+			if ms.At(k).Obj().Name() == "Write" {
+				f := fr.i.prog.MethodValue(ms.At(k))
+				r.bytes = true
+				var payload value = r
+				if len(r.p) == 0 {
+					payload = []value{}
+				} else if len(r.p) == 1 && r.p[0].k == pLit {
+					b := make([]value, len(r.p[0].lit))
+					for i := range b {
+						b[i] = r.p[0].lit[i]
+					}
+					payload = b
+				}
+				res := call(fr.i, fr, token.NoPos, f, []value{dst.v, payload})
+				if t, ok := res.(tuple); ok && len(t) == 2 {
+					return t[1]
+				}
+				return nilErr()
+			}
+		}
+		panic(abortPath{why: "resp.Writer over a value without Write", kind: "unsupported"})
+	}
+	intrinsics["(*github.com/tidwall/resp.Writer).WriteArray"] = func(fr *frame, args []value) value {
+		vals := args[1].([]value)
+		out := symStr{p: []piece{{k: pLit, lit: "*" + fmt.Sprint(len(vals)) + "\r\n"}}}
+		for _, v := range vals {
+			out.p = append(out.p, respValueRope(v).p...)
+		}
+		out.p = normRope(out.p)
+		return writeTo(fr, args[0], out)
+	}
+	intrinsics["(*github.com/tidwall/resp.Writer).WriteValue"] = func(fr *frame, args []value) value {
+		return writeTo(fr, args[0], respValueRope(args[1]))
+	}
+}
+
+// respValueRope renders a resp.Value structure {typ, integer, str, array, null}.
+func respValueRope(v value) symStr {
+	st := v.(structure)
+	typ := byte(asInt64(st[0]))
+	null, _ := st[4].(bool)
+	lenPiece := func(r symStr) []piece {
+		switch l := ropeLen(r).(type) {
+		case int:
+			return []piece{{k: pLit, lit: fmt.Sprint(l)}}
+		case symBV:
+			return []piece{{k: pItoa, t: l.t}}
+		}
+		return nil
+	}
+	switch typ {
+	case '$':
+		if null {
+			return symStr{p: []piece{{k: pLit, lit: "$-1\r\n"}}}
+		}
+		body := toRope(st[2])
+		p := []piece{{k: pLit, lit: "$"}}
+		p = append(p, lenPiece(body)...)
+		p = append(p, piece{k: pLit, lit: "\r\n"})
+		p = append(p, body.p...)
+		p = append(p, piece{k: pLit, lit: "\r\n"})
+		return symStr{p: normRope(p)}
+	case '+', '-':
+		body := toRope(st[2])
+		p := []piece{{k: pLit, lit: string(typ)}}
+		p = append(p, body.p...)
+		p = append(p, piece{k: pLit, lit: "\r\n"})
+		return symStr{p: normRope(p)}
+	case ':':
+		switch n := st[1].(type) {
+		case int:
+			return symStr{p: []piece{{k: pLit, lit: ":" + fmt.Sprint(n) + "\r\n"}}}
+		case symBV:
+			return symStr{p: []piece{{k: pLit, lit: ":"}, {k: pItoa, t: n.t}, {k: pLit, lit: "\r\n"}}}
+		}
+	case '*':
+		if null {
+			return symStr{p: []piece{{k: pLit, lit: "*-1\r\n"}}}
+		}
+		arr, _ := st[3].([]value)
+		p := []piece{{k: pLit, lit: "*" + fmt.Sprint(len(arr)) + "\r\n"}}
+		for _, e := range arr {
+			p = append(p, respValueRope(e).p...)
+		}
+		return symStr{p: normRope(p)}
+	}
+	panic(abortPath{why: fmt.Sprintf("resp value of type %q", typ), kind: "unsupported"})
 }
